@@ -218,6 +218,14 @@ module Make (I : INST) = struct
   let c_state_red (s : st) : string =
     Printf.sprintf "D%s%s|S%s|W%s" (sn s.McSys.st_depth) (c_nodes s) (I.red_text s.McSys.st_events) (c_net s.McSys.st_net)
   let c_state (s : st) : string = c_state_core s ^ "|T" ^ c_trace s.McSys.st_trace
+  (* the process-visible projection: per process its state and local outbox (what C04 compares) *)
+  let c_state_pv (s : st) : string =
+    cat "" (LL.map (fun (_, ns) ->
+        cat "" (LL.map (fun (pn, pe) ->
+            Printf.sprintf "{P%s i%s h[%s] o[%s]}" (sn pn) (sn pe.Log.pe_state.Script.ps_idx)
+              (cat "" (LL.map c_hentry pe.Log.pe_state.Script.ps_hist)) (cat ";" (LL.map c_msg pe.Log.pe_outbox)))
+            ns.McSys.ns_procs))
+        s.McSys.st_nodes)
   (* the projection the checker's state equality looks at (process state, outbox, crash flag, pending events) *)
   let c_state_eqp (s : st) : string =
     cat "" (LL.map (fun (name, ns) ->
@@ -295,7 +303,8 @@ module Make (I : INST) = struct
       | Some k -> "G" ^ string_of_int k
       | None -> match e_prune ps s with Some k -> "P" ^ string_of_int k | None -> if noevents s then "E0" else "N"
 
-  let run (sc : scenario) : string =
+  let run_from ?(init : (sys * (coq_N * coq_N) list * (coq_N * coq_N Script.prog) list * ((coq_N * coq_N) * coq_N) list) option)
+      (lines : string list) : string =
     let b = Buffer.create 65536 in
     let add = Buffer.add_string b in
     let verbose = ref false in
@@ -308,7 +317,13 @@ module Make (I : INST) = struct
     let ps = { inv = ["NONE"]; goal = ["NONE"]; prune = ["NONE"]; collect = ["NONE"] } in
     let sys : sys option ref = ref None in
     let last_collected : st list ref = ref [] in
+    (match init with
+     | Some (s0, pn, _, t0) ->
+       sys := Some s0; tab := t0;
+       procs := LL.map (fun (p, n) -> (p, n, (N0, false, 0, false))) pn
+     | None -> ());
     let progs () =
+      match init with Some (_, _, pg, _) -> pg | None ->
       LL.fold_left (fun acc (p, _, (cap, rt, nd, sl)) ->
           let rs = LL.rev (try Hashtbl.find rows (sn p) with Not_found -> []) in
           Util.sins BinNat.N.compare p
@@ -346,8 +361,8 @@ module Make (I : INST) = struct
             | None -> "-"
             | Some f -> cat "" (LL.map (function Some true -> "1" | Some false -> "0" | None -> "x")
                                   (f (node_of 0) (node_of 1) (bytes "plain") (bytes "{\"k\": \"v\"}") s))) in
-        Printf.sprintf "d=%s core=%s red=%s eqp=%s tr=%s c=%s v=%s x=%s k=%s pb=%s" (sn s.McSys.st_depth) (fnv (c_state_core s))
-          (fnv (c_state_red s)) (fnv (c_state_eqp s)) (fnv (c_trace s.McSys.st_trace)) (b01 (e_collect ps s)) (verdict_text ps s) x k pb in
+        Printf.sprintf "d=%s core=%s red=%s eqp=%s pv=%s tr=%s c=%s v=%s x=%s k=%s pb=%s" (sn s.McSys.st_depth) (fnv (c_state_core s))
+          (fnv (c_state_red s)) (fnv (c_state_eqp s)) (fnv (c_state_pv s)) (fnv (c_trace s.McSys.st_trace)) (b01 (e_collect ps s)) (verdict_text ps s) x k pb in
     let report res =
       match res with
       | Util.Panic _ -> add "RESULT PANIC\n"
@@ -424,9 +439,10 @@ module Make (I : INST) = struct
              cb := []
            with Fuel_exhausted -> add "RESULT FUEL\n"; raise Exit)
         | s -> failwith ("bad MC line " ^ s))
-        sc.lines
+        lines
      with Exit -> ());
     Buffer.contents b
+  let run (sc : scenario) : string = run_from sc.lines
 end
 
 module MC = Make (Concrete)
